@@ -61,7 +61,7 @@ Vector ==
       ec   == ErrCases[v[7]]
       id   == MsgId(body)
       oid  == IF v[6] = 0 THEN id ELSE (id + 4660) % 65536
-      t    == [key |-> Keys[v[3]], alg |-> a.name, time |-> tc.time, fudge |-> tc.fudge,
+      t    == [key |-> Keys[v[3]], alg |-> a.name, class |-> ClassANY, ttl |-> TTL0, time |-> tc.time, fudge |-> tc.fudge,
                origId |-> oid, error |-> ec.error, other |-> ec.other]
       rq   == ReqMacs[v[4]]
       to   == v[5] = 1
